@@ -10,6 +10,7 @@ ap.add_argument('-w', type=int, default=6)
 ap.add_argument('-gsm7-every', type=int, default=5)
 ap.add_argument('-only', default='')
 ap.add_argument('-limit', type=int, default=0)
+ap.add_argument('-ids', default='', help='comma list of mutant ids (as numbered after -only selection) to run')
 ap.add_argument('-append', action='store_true')
 ap.add_argument('-out', default='/verif/selftest/mutation/results.tsv')
 a = ap.parse_args()
@@ -17,7 +18,10 @@ env = dict(os.environ, GOFLAGS='-mod=mod', GOPROXY='off', GOSUMDB='off', GOTOOLC
 env.pop('GOWORK', None)
 base = '/tmp/verif-mut'
 shutil.rmtree(base, ignore_errors=True); os.makedirs(base)
-muts = [json.loads(l) for l in subprocess.run(['/verif/bin/mutate', '/repo'], capture_output=True, text=True).stdout.splitlines()]
+# the campaign works on /repo's HEAD (git archive), not on its working tree, so that it can run while another tool has a patch applied there
+head = f'{base}/head'; os.makedirs(head)
+subprocess.run('git -C /repo archive HEAD | tar -x -C ' + head, shell=True, check=True)
+muts = [json.loads(l) for l in subprocess.run(['/verif/bin/mutate', head], capture_output=True, text=True).stdout.splitlines()]
 sel = []; g = 0
 for m in muts:
     if a.only and not any(o in m['file'] for o in a.only.split(',')): continue
@@ -27,6 +31,9 @@ for m in muts:
     sel.append(m)
 if a.limit: sel = sel[:a.limit]
 for i, m in enumerate(sel): m['id'] = i
+if a.ids:
+    want = set(int(x) for x in a.ids.split(','))
+    sel = [m for m in sel if m['id'] in want]
 print('mutants selected:', len(sel), 'of', len(muts), flush=True)
 q = queue.Queue()
 for m in sel: q.put(m)
@@ -36,7 +43,7 @@ if not a.append:
     out.write('id\tfile:line\tfunc\top\told -> new\tverdict\tdetail\n')
 def worker(w):
     repo = f'{base}/w{w}'; root = f'{base}/root{w}'
-    shutil.copytree('/repo', repo, ignore=shutil.ignore_patterns('.git'))
+    shutil.copytree(head, repo)
     os.makedirs(root, exist_ok=True); shutil.copy('/verif/known_findings.json', root)
     while True:
         try: m = q.get_nowait()
